@@ -1745,3 +1745,12 @@ package compose
 //@   at call g.onCompileFinish: assert[no_step_limit_in_dag_mode] @C20 !(r.dag && r.options.maxRunSteps > 0)
 //@   at call g.onCompileFinish: assert[pregel_has_a_step_limit] @C20,C01 r.dag || r.options.maxRunSteps != 0
 //@   at call g.onCompileFinish: assert[marked_compiled] @C20 g.compiled
+
+//@ func takeOne
+//@   props C15
+//@   skip safe pre
+//@   note reflect.Value operations are opaque; what is checked is that the type reported for an extracted field is the field's declared type (the next extraction step and the run-time checkers decide 'error or panic' by it), and that a failed extraction returns no value
+//@   ghost declared reflect.Type
+//@   after call f.Type: ghost declared = result
+//@   ensures[declared_field_type_reported] @C15 err == nil ==> takenType == declared
+//@   ensures[no_value_on_error] @C15 err != nil ==> takenType == nil
